@@ -157,11 +157,15 @@ def parse_inputs(texts, entries=('expression',), boolean_only=False):
     return out
 
 
-def corrupt_first(events, pred, mutate, cid):
+def corrupt_first(events, pred, mutate, cid, n=5):
+    """Up to n canaries of one kind (group cid): the same corruption applied to n different recorded events."""
+    out = []
     for ev in events:
         if pred(ev):
             c = copy.deepcopy(ev)
-            c['id'] = CANARY_BASE + cid
+            c['id'] = CANARY_BASE + 100 * cid + len(out)
             mutate(c)
-            return [c]
-    return []
+            out.append(c)
+            if len(out) >= n:
+                break
+    return out
